@@ -1,12 +1,27 @@
+// vh is the conformance harness: it executes TLC-generated vectors and schedules against the real
+// git-bug packages (built from /repo's working tree) and records traces for TLC to validate.
 package main
 
 import (
 	"fmt"
 	"os"
 
-	"github.com/MichaelMure/git-bug/entity"
+	"verif/harness/page"
 )
 
+var commands = map[string]func(args []string){
+	"page": page.Run,
+}
+
 func main() {
-	fmt.Println(entity.UnsetId, os.Args)
+	if len(os.Args) < 2 {
+		fmt.Fprintln(os.Stderr, "usage: vh <command> ...")
+		os.Exit(3)
+	}
+	f, ok := commands[os.Args[1]]
+	if !ok {
+		fmt.Fprintln(os.Stderr, "unknown command", os.Args[1])
+		os.Exit(3)
+	}
+	f(os.Args[2:])
 }
